@@ -31,6 +31,10 @@ func init() {
 }
 
 func runC05(c *an.Ctx) {
+	sharedErrorsAs(c, "C05-R5", 1, "dnssvc/internal/ratelimitmw.", "ecscache.", "dnsmsg.")
+	if n := sharedLoopCompleteness(c, "C05-R6", "dnsmsg.", "ecscache.", "geoip."); n > 0 {
+		c.Ok("C05-R6", "element-wise loops", token.NoPos, "%d range loops of the ECS helpers examined: no element ends a scan early", n)
+	}
 	c.Floor("C05-R1", 3)
 	c.Floor("C05-R2", 3)
 	c.Floor("C05-R3", 8)
